@@ -1026,3 +1026,33 @@ pub fn sum_loop_extra_add_panics(s: &[i16], big: i32) -> i32 {
     }
     num
 }
+
+// split_at(k): (.0, .1) = (s[..k], s[k..])
+pub fn split_at_parts_safe(s: &[u8]) -> u8 {
+    if s.len() < 20 {
+        return 0;
+    }
+    let (head, tail) = s[..20].split_at(16);
+    let w: [u8; 4] = tail.try_into().unwrap();
+    head[15] ^ w[3]
+}
+pub fn split_at_wrong_half_panics(s: &[u8]) -> u8 {
+    if s.len() < 20 {
+        return 0;
+    }
+    let (head, _tail) = s[..20].split_at(16);
+    // head has 16 bytes, not 4
+    let w: [u8; 4] = head.try_into().unwrap();
+    w[0]
+}
+pub fn split_at_tail_index_panics(s: &[u8]) -> u8 {
+    if s.len() < 20 {
+        return 0;
+    }
+    let (_head, tail) = s[..20].split_at(16);
+    tail[4]
+}
+pub fn split_at_too_far_panics(s: &[u8], k: usize) -> u8 {
+    let (head, _tail) = s.split_at(k);
+    head.len() as u8
+}
